@@ -12,8 +12,9 @@
    or extends the data set beyond the count — every index at once: C05_frame_any_index; the general form is
    C05_frame_call_general), and by induction over the calls for a whole recording of appended frames (C05_recording_session), also when it starts from
    the declared, still empty object (C05_recording_from_empty); and c3d::parameter on
-   any other group keeps it (C05_parameter_elsewhere).  NOT yet proved: the whole predicate for the first frame and for extensions of a points-only data set, and for the column, declare and parameter calls: decided by the check. *)
-From EZ Require Import Base Types Api Proofs_Param Proofs_Guards Spec_Inv Proofs_Inv Proofs_Header Spec_Typed Proofs_Updaters Proofs_ApiSafe Proofs_InvFrame Proofs_InvParam Float32 Run.
+   any other group keeps it (C05_parameter_elsewhere).  the DECLARATION PHASE is covered from the constructor for every list of names (C05_declaring_keeps_the_agreement,
+   C05_declarations_from_the_constructor).  NOT yet proved: the whole predicate for extensions of a points-only data set, for the column calls and for parameter() on POINT / ANALOG (the rates among them): decided by the check. *)
+From EZ Require Import Base Types Api Proofs_Param Proofs_Guards Spec_Inv Proofs_Inv Proofs_Header Spec_Typed Proofs_Updaters Proofs_ApiSafe Proofs_InvFrame Proofs_InvParam Proofs_Declare Proofs_InvDeclare Float32 Run.
 Local Open Scope N_scope.
 
 Definition conforming (s : state) (o : op) : Prop :=
@@ -423,3 +424,51 @@ Proof.
   - vm_compute. reflexivity.
 Qed.
 Print Assumptions C05_recording_from_empty_nonvacuous.
+
+(* THE DECLARATION PHASE.  An object "in its declaration phase" holds no frame, its POINT:RATE is still zero, header and
+   parameters agree (Inv), the mandatory parameters are well typed, samples = channels x sub-frames in the header, and its
+   label lists are lP / lA.  updateParameters(newPoints, newChannels) — what point(name) and analog(name) run on such an object —
+   leads to an object in its declaration phase again whose label lists are the old ones followed by the new names IN ORDER,
+   with one entry per name in the description, unit, scale and offset lists (that is part of Inv), one sub-frame announced
+   by the header, the prologue untouched. *)
+Theorem C05_declaring_keeps_the_agreement : forall f_key f_tosize f_div,
+  (forall x e, f_key x <> Throw e) -> (forall x e, f_tosize x <> Throw e) ->
+  forall nP nA s s' lP lA,
+  declaring s lP lA -> nlen lP + nlen nP < 2147483648 -> nlen lA + nlen nA < 2147483648 ->
+  update_parameters f_key f_tosize f_div nP nA s = ROk tt s' ->
+  declaring s' (lP ++ nP) (lA ++ nA) /\ pro s' = pro s /\ h_byframe (hdr s') = 1.
+Proof. exact declare_step. Qed.
+Print Assumptions C05_declaring_keeps_the_agreement.
+
+(* ... and from the constructor, by induction over the calls, for EVERY list of point names and EVERY list of channel names
+   (repeated names, names with trailing blanks included): point(p) for each p of ps, then analog(c) for each c of cs *)
+Theorem C05_declarations_from_the_constructor : forall f_key f_tosize f_div f_is_zero,
+  (forall x e, f_key x <> Throw e) -> (forall x e, f_tosize x <> Throw e) ->
+  forall ps cs s', nlen ps < 2147483648 -> nlen cs < 2147483648 ->
+  run_ops f_key f_tosize f_div f_is_zero (map OPoint ps ++ map OAnalog cs) init = ROk tt s' ->
+  declaring s' (map rtrim ps) (map rtrim cs) /\ pro s' = pro init.
+Proof. exact declarations_from_init. Qed.
+Print Assumptions C05_declarations_from_the_constructor.
+
+(* what "declaring" gives: the agreement, and the label lists in call order *)
+Theorem C05_declaring_means : forall s lP lA, declaring s lP lA ->
+  Inv s /\ frames s = [] /\ lk_strs (groups s) nm_POINT nm_LABELS = Some lP /\ lk_strs (groups s) nm_ANALOG nm_LABELS = Some lA.
+Proof. intros s lP lA (A & _ & _ & B & C & D & _). auto. Qed.
+Print Assumptions C05_declaring_means.
+
+(* non-vacuity: three points (one padded, one repeated) and two channels on the executable instance; the calls return
+   normally (evaluated), the agreement and the label lists come from the theorem *)
+Example C05_declarations_nonvacuous :
+  let ps := [[97]; [98; 32; 32]; [97]] in let cs := [[99]; [100; 32]] in
+  exists s', run_ops f_key_impl f_tosize_impl f_div_impl f_is_zero_impl (map OPoint ps ++ map OAnalog cs) init = ROk tt s' /\
+             Inv s' /\ lk_strs (groups s') nm_POINT nm_LABELS = Some [[97]; [98]; [97]] /\ lk_strs (groups s') nm_ANALOG nm_LABELS = Some [[99]; [100]].
+Proof.
+  intros ps cs.
+  destruct (run_ops f_key_impl f_tosize_impl f_div_impl f_is_zero_impl (map OPoint ps ++ map OAnalog cs) init) as [[] s'| |] eqn:E;
+    [|vm_compute in E; discriminate|vm_compute in E; discriminate].
+  exists s'. split; [reflexivity|].
+  destruct (declarations_from_init f_key_impl f_tosize_impl f_div_impl f_is_zero_impl f_key_impl_nothrow f_tosize_impl_nothrow ps cs s') as [D _];
+    [vm_compute; reflexivity|vm_compute; reflexivity|exact E|].
+  destruct D as (A & _ & _ & _ & C & D & _). split; [exact A|]. split; [exact C|exact D].
+Qed.
+Print Assumptions C05_declarations_nonvacuous.
